@@ -53,7 +53,7 @@ func newSys(w *vt.Writer, tag string) *sys {
 
 // mkRec builds a record of the given kind obeying the exporter contract (unless stale is set).
 func (s *sys) mkRec(r *rand.Rand, k, kind string, stale bool, bigVals bool) agg.Rec {
-	rec := agg.Rec{Key: k, Reason: 2, Ftype: 2}
+	rec := agg.Rec{Key: k, Reason: 2, Ftype: 2, Cip: []int{0, 0, 0, 0}}
 	switch kind {
 	case "intra":
 		rec.Sp, rec.Dp, rec.Sns, rec.Dns, rec.Ftype = "pod-a", "pod-b", "ns-a", "ns-b", 1
@@ -79,6 +79,9 @@ func (s *sys) mkRec(r *rand.Rand, k, kind string, stale bool, bigVals bool) agg.
 			rec.Ingress = r.Intn(2)
 			if r.Intn(4) == 0 {
 				rec.Sns = "ns-a-seen-from-b"
+			}
+			if r.Intn(2) == 0 {
+				rec.Cip = []int{10, 96, r.Intn(3), 1 + r.Intn(3)} // the Service's cluster IP, as one node knows it
 			}
 			rec.Prio = []int{0, 0, 1, 50000, -1, -2147483648, 2147483647}[r.Intn(7)]
 		}
@@ -282,7 +285,7 @@ func main() {
 					break
 				}
 				end += 1 + r.Intn(9)
-				rec := agg.Rec{Key: k, Sp: "pod-a", Dp: "pod-b", Sns: "ns-a", Dns: "ns-b", Ftype: 1, Reason: 2, Start: start, End: end,
+				rec := agg.Rec{Key: k, Sp: "pod-a", Dp: "pod-b", Sns: "ns-a", Dns: "ns-b", Ftype: 1, Reason: 2, Start: start, End: end, Cip: []int{0, 0, 0, 0},
 					Vals: []int{10 * (j + 1), 10, int(oct), 20 * (j + 1), 20, int(roct)}}
 				err := p.A.AggregateMsgByFlowKey(agg.BuildMessage(rec))
 				ev := vt.Ev{"e": "Big", "err": err != nil, "start": start, "end": end, "oct": [][]int{l4(oct), l4(roct)}}
